@@ -152,6 +152,9 @@ class BlockClient(F.Client):
                 unknown = True
         if unknown:
             keys |= set(self.universe)
+            if not self.universe:
+                # no per-instance universe (a matcher other than the block engine): some object, or None
+                return frozenset(F.inst_val(keys, or_none=True) | F.TRUTHY)
         return F.inst_val(keys, or_none=True)
 
     def clslist(self, node, st):
@@ -756,8 +759,11 @@ def run_classlist(ctx, inst, rule):
     finfo = ctx.engine
     client = ListClient(ctx, finfo, inst)
     env = {k: v for k, v in inst_env(ctx, inst).items() if k in client.track}
-    fl = ListFlow(m, finfo, client)
-    fl.run(F.State(env))
+    for pd in (F.TRUTHY, F.FALSY):
+        env2 = dict(env)
+        env2["@process_directives"] = pd
+        fl = ListFlow(m, finfo, client)
+        fl.run(F.State(env2))
     rule.instances += 1
     label = inst.tag
     if not client.at_loop:
